@@ -71,6 +71,7 @@ func (pj *internalParsedJson) findStructuralIndices() bool {
 		index := indexChan{}
 		offset := atomic.AddUint64(&pj.buffersOffset, 1)
 		index.indexes = &pj.buffers[offset%indexSlots]
+		verifEvent(1, offset, offset%indexSlots)
 
 		// In case last index during previous round was stripped back, put it back
 		if stripped_index != ^uint64(0) {
@@ -135,12 +136,15 @@ func (pj *internalParsedJson) findStructuralIndices() bool {
 			index.length -= 1
 		}
 
+		verifEvent(2, offset, uint64(index.length))
 		pj.indexChans <- index
+		verifEvent(3, offset, 0)
 		indexTotal += index.length
 
 		buf = buf[processed:]
 		position -= processed
 	}
+	verifEvent(4, 0, 0)
 	pj.indexChans <- indexChan{index: -1}
 
 	// a valid JSON file cannot have zero structural indexes - we should have found something
